@@ -1777,7 +1777,7 @@ class DiameterRequest(DiameterMessage):
                  header: DiameterHeader = None,
                  avps: List[DiameterAVP] = None) -> None:
 
-        if header:
+        if header is not None:
             _header = DiameterHeader(version=header.version,
                                      command_code=header.command_code,
                                      application_id=header.application_id,
@@ -1852,7 +1852,7 @@ class DiameterAnswer(DiameterMessage):
                  header: DiameterHeader = None,
                  avps: List[DiameterAVP] = None) -> None:
 
-        if header:
+        if header is not None:
             _header = DiameterHeader(version=header.version,
                                      command_code=header.command_code,
                                      application_id=header.application_id,
